@@ -17,6 +17,7 @@ package sparseindex
 import (
 	"math"
 
+	"github.com/openGemini/openGemini/lib/record"
 	"github.com/openGemini/openGemini/lib/util/lifted/vm/protoparser/influx"
 )
 
@@ -38,19 +39,31 @@ func NewRange(left, right *FieldRef, li, ri bool) *Range {
 }
 
 // turnOpenRangeIntoClosed convert an open range to a closed range. for example, turn (0, 3) into [1, 2].
+// The adjusted bound is stored in a FieldRef of its own: the original bound may point into a shared column
+// (for example the cached primary index record), which must not be modified.
 func (r *Range) turnOpenRangeIntoClosed() {
-	if len(r.left.cols) > 0 && !r.leftIncluded && r.left.cols[r.left.column].dataType == influx.Field_Type_Int {
-		if val, _ := r.left.cols[r.left.column].column.IntegerValue(r.left.row); val != math.MaxInt64 {
-			r.left.cols[r.left.column].column.UpdateIntegerValue(val+1, false, r.left.row)
+	if len(r.left.cols) > 0 && !r.leftIncluded && !r.left.IsPositiveInfinity() && !r.left.IsNegativeInfinity() &&
+		r.left.cols[r.left.column].dataType == influx.Field_Type_Int {
+		if val, isNil := r.left.cols[r.left.column].column.IntegerValue(r.left.row); !isNil && val != math.MaxInt64 {
+			r.left = newIntegerFieldRef(r.left, val+1)
 			r.leftIncluded = true
 		}
 	}
-	if len(r.right.cols) > 0 && !r.rightIncluded && r.right.cols[r.right.column].dataType == influx.Field_Type_Int {
-		if val, _ := r.right.cols[r.right.column].column.IntegerValue(r.right.row); val != math.MinInt64 {
-			r.right.cols[r.right.column].column.UpdateIntegerValue(val-1, false, r.right.row)
+	if len(r.right.cols) > 0 && !r.rightIncluded && !r.right.IsPositiveInfinity() && !r.right.IsNegativeInfinity() &&
+		r.right.cols[r.right.column].dataType == influx.Field_Type_Int {
+		if val, isNil := r.right.cols[r.right.column].column.IntegerValue(r.right.row); !isNil && val != math.MinInt64 {
+			r.right = newIntegerFieldRef(r.right, val-1)
 			r.rightIncluded = true
 		}
 	}
+}
+
+// newIntegerFieldRef creates a FieldRef that owns a single integer value and keeps the name and type of src's column.
+func newIntegerFieldRef(src *FieldRef, val int64) *FieldRef {
+	col := &record.ColVal{}
+	col.AppendInteger(val)
+	srcCol := src.cols[src.column]
+	return &FieldRef{cols: []*ColumnRef{{name: srcCol.name, dataType: srcCol.dataType, column: col}}}
 }
 
 // leftLEQ x is to the right for the left point of the range.
